@@ -625,7 +625,10 @@ def check_saveload(cfg, compress):
     res = {"problems": [], "known": set(), "nontrivial": False, "skipped": None, "runs": 0}
     bad = res["problems"].append
     try:
-        perv, mis = plain_pervious(cfg), mislabelled(cfg)
+        # The depth rescaling of PerviousSurface and the filing under the class name have been repaired in the tree
+        # (known_findings.json, 'fixed'); the compensating comparison below (reference model rebuilt from the saved
+        # depths and labels) is kept for the record but no longer selected: every model takes the plain comparison.
+        perv, mis = [], []
         m0 = build(cfg)
         s0 = model_snap(m0)
         m1, y1, f1, err = save_load(m0, compress)
